@@ -42,13 +42,6 @@ namespace {
 
 typedef DiscretisedDensity<3, float> Target;
 
-bool
-no_exclude()
-{
-  static const bool v = std::getenv("VERIF_NO_EXCLUDE") != nullptr;
-  return v;
-}
-
 // ------------------------------------------------------------------------------------------------
 // symmetry codes of a configuration Case
 //   0 TrivialDataSymmetriesForBins
@@ -569,18 +562,6 @@ check(const json& c)
   return check_config(c);
 }
 
-// L6: IterativeReconstruction::get_subset_num indexes the empty _current_subset_array when the subset order is
-// randomised and the first sub-iteration is not the first of a full iteration (see work/notes/C06_findings.md)
-std::string
-known_signature(const json& c)
-{
-  if (no_exclude())
-    return "";
-  if (c["kind"] == "sched" && c["randomise"].get<bool>() && (c["start_subiter"].get<int>() - 1) % c["N"].get<int>() != 0)
-    return "L6:randomise+start_subiteration_inside_iteration";
-  return "";
-}
-
 // ------------------------------------------------------------------------------------------------
 // the enumerated space (built once)
 json
@@ -762,6 +743,5 @@ the_property()
   p.check = check;
   p.nontrivial = nontrivial;
   p.enumerate = enumerate;
-  p.known_signature = known_signature;
   return p;
 }
